@@ -88,22 +88,37 @@ def check(log, meta):
                 if a in plan and plan[a][-1] != v:
                     bad.append(f"atom {a} ended at {v[0]} but the adapted plan now ends it at {plan[a][-1][0]}")
             # the adapted plan is still a solution of the problem's temporal constraints
-            for c in meta["cons"]:
+            def pt(x):
+                p = plan[x[0]]
+                return p[0] if x[1] in ("at", "start") else p[-1]
+
+            def broken(c):
+                """message when the plan violates the constraint, None when it holds or does not apply"""
                 if c[0] == "lb" and c[1][0] in plan:
-                    v = plan[c[1][0]][0]
+                    v = pt(c[1])
                     if v < (c[2], F(0)):
-                        bad.append(f"adapted plan violates {c[1][0]}.{c[1][1]} >= {c[2]}: {v[0]}")
+                        return f"{c[1][0]}.{c[1][1]} >= {c[2]}: {v[0]}"
+                elif c[0] == "ub" and c[1][0] in plan:
+                    v = pt(c[1])
+                    if v > (c[2], F(0)):
+                        return f"{c[1][0]}.{c[1][1]} <= {c[2]}: {v[0]}"
                 elif c[0] == "dur" and c[1] in plan and len(plan[c[1]]) == 2:
                     s_, e_ = plan[c[1]]
                     if e_[0] - s_[0] < c[2]:
-                        bad.append(f"adapted plan violates {c[1]}.duration >= {c[2]}: {e_[0] - s_[0]}")
+                        return f"{c[1]}.duration >= {c[2]}: {e_[0] - s_[0]}"
                 elif c[0] in ("ge", "gt") and c[1][0] in plan and c[2][0] in plan:
-                    def pt(x):
-                        p = plan[x[0]]
-                        return p[0] if x[1] in ("at", "start") else p[-1]
                     lhs, rhs = pt(c[1]), (pt(c[2])[0] + c[3], pt(c[2])[1])
                     if (lhs < rhs) if c[0] == "ge" else (lhs <= rhs):
-                        bad.append(f"adapted plan violates {c[1][0]}.{c[1][1]} {'>=' if c[0] == 'ge' else '>'} {c[2][0]}.{c[2][1]} + {c[3]}")
+                        return f"{c[1][0]}.{c[1][1]} {'>=' if c[0] == 'ge' else '>'} {c[2][0]}.{c[2][1]} + {c[3]}"
+                elif c[0] == "or":
+                    if all(any(broken(d) for d in alt) for alt in c[1]):
+                        return "every alternative of `" + " or ".join("{" + "; ".join(f"{d[1][0]}.{d[1][1]} >= " + (f"{d[2][0]}.{d[2][1]}" if d[0] == "ge" else str(d[2])) for d in alt) + "}" for alt in c[1]) + "`"
+                return None
+
+            for c in meta["cons"]:
+                m = broken(c)
+                if m:
+                    bad.append("adapted plan violates " + m)
             for a, p in plan.items():
                 if len(p) == 2 and p[1] < p[0]:
                     bad.append(f"adapted plan has {a} ending before it starts")
